@@ -144,8 +144,8 @@ def replay_races(rep, binary, races, *, par=6, env=None, label="pipeline/stop-ra
     """The race behaviours are probabilistic (the Go scheduler decides where the stop lands), so they get
     their own driver: one process per behaviour (a panic in a library goroutine kills the process), and a
     hit is re-run alone up to three times before it is reported - a VIOLATION is issued only for a
-    reproduced hit.  Hits that did not reproduce are infrastructure trouble unless another behaviour
-    reproduced the same key (then they are counted as corroborating, unreproduced observations)."""
+    reproduced hit.  Hits that did not reproduce are infrastructure trouble unless another behaviour of
+    the batch reproduced (then they are counted as corroborating, unreproduced observations)."""
     items = [dict(n=i, beh=b) for i, b in enumerate(races)]
 
     def one(item):
@@ -156,38 +156,43 @@ def replay_races(rep, binary, races, *, par=6, env=None, label="pipeline/stop-ra
         return item, _classify(item, rc, outs, err)
     with cf.ThreadPoolExecutor(max_workers=par) as ex:
         first = list(ex.map(one, items))
-    passed, reproduced, unreproduced = [], {}, []
+    passed, reproduced, unreproduced, suspects = [], {}, [], []
     for item, (kind, info) in first:
         if kind == "ok":
             if info.get("inconclusive"):
                 rep.cov["inconclusive"] = rep.cov.get("inconclusive", 0) + 1
             else:
                 passed.append(item["beh"])
-            continue
-        if kind == "infra":
+        elif kind == "infra":
             rep.infra_error("%s: behaviour %d produced no result: %s" % (label, item["n"], str(info)[-400:]))
-            continue
-        key0 = info.get("key") if kind == "fail" else label + "/process-crash"
-        hit = None
+        else:
+            suspects.append((item, info.get("key") if kind == "fail" else label + "/process-crash"))
+
+    def reproduce(sus):
+        item, key0 = sus
         for attempt in range(3):
             _, (k2, i2) = one(item)
             if k2 == "fail":
-                hit = (i2.get("key", key0), i2.get("what", ""), dict(behaviour=item, result=i2, binary=BINARY, args=["replay"]))
-            elif k2 == "crash":
-                hit = (label + "/process-crash", "the process died (panic in a library goroutine) while a stop raced with the "
-                       "consumers' advances: " + i2[-1500:], dict(behaviour=item, stderr=i2))
+                return key0, item, (i2.get("key", key0), i2.get("what", ""),
+                                    dict(behaviour=item, result=i2, binary=BINARY, args=["replay"]))
+            if k2 == "crash":
+                return key0, item, (label + "/process-crash", "the process died (panic in a library goroutine) while a stop "
+                                    "raced with the consumers' advances: " + i2[-1500:], dict(behaviour=item, stderr=i2))
+        return key0, item, None
+    with cf.ThreadPoolExecutor(max_workers=par) as ex:
+        for key0, item, hit in ex.map(reproduce, suspects):
             if hit:
-                break
-        if hit:
-            reproduced.setdefault(hit[0], []).append(hit)
-        else:
-            unreproduced.append((key0, item["n"]))
+                reproduced.setdefault(hit[0], []).append(hit)
+            else:
+                unreproduced.append((key0, item["n"]))
     for key, hits in reproduced.items():
         for h in hits:
             rep.violation(*h)
-    lost = [u for u in unreproduced if u[0] not in reproduced]
-    if lost:
-        rep.infra_error("%s: %d race hit(s) did not reproduce in three isolated re-runs: %s" % (label, len(lost), lost[:5]))
+    # all behaviours of one batch probe the same race class: a hit that did not reproduce is infrastructure
+    # trouble only if NO hit of the batch reproduced; otherwise it is a corroborating, unreported observation
+    if unreproduced and not reproduced:
+        rep.infra_error("%s: %d race hit(s) did not reproduce in three isolated re-runs: %s" % (
+            label, len(unreproduced), unreproduced[:5]))
     rep.cov["race_hits_not_reproduced"] = len(unreproduced)
     rep.add_cases(passed, nontrivial=nontrivial)
 
